@@ -73,6 +73,7 @@ type Contract struct {
 	// NOT checked against (reported as an assumption in the evidence)
 	AssumedEnsures []*Clause
 	RecvNonNil bool
+	GlobalFacts []*Clause // assume_global clauses of this function
 	Reindex    bool
 	NoAutoNonNil bool
 }
@@ -284,7 +285,13 @@ func parseContracts(path, pkgPath string, external bool) ([]*Contract, map[strin
 			if err != nil {
 				return nil, nil, fmt.Errorf("%s:%d: %v in assume_global", path, i+1, err)
 			}
-			globalFacts[pkgPath] = append(globalFacts[pkgPath], &Clause{Kind: "assume_global", Text: txt, Expr: e, File: path, Line: i + 1})
+			gcl := &Clause{Kind: "assume_global", Text: txt, Expr: e, File: path, Line: i + 1}
+			if cur != nil {
+				// inside a function's contract: assumed at the entry of that function only
+				cur.GlobalFacts = append(cur.GlobalFacts, gcl)
+			} else {
+				globalFacts[pkgPath] = append(globalFacts[pkgPath], gcl)
+			}
 		case "ghostdecl":
 			// ghostdecl name Sort   (file level): a ghost field of objects
 			if len(f) >= 3 {
